@@ -148,6 +148,9 @@ func newWorld(seed int64, bid string, opts map[string]string) (*world, error) {
 	mgr.SysAPI, _ = client.New(mgr.Client, nil)
 	sub := &p2pty.P2PSubConfig{}
 	sub.Broadcast.LtBlockPendTimeout = pendTimeMS
+	if ms := opts["pendms"]; ms != "" {
+		fmt.Sscan(ms, &sub.Broadcast.LtBlockPendTimeout)
+	}
 	if opts["noval"] == "1" {
 		sub.Broadcast.DisableValidation = true
 	}
@@ -343,6 +346,17 @@ func childMain() {
 				continue
 			}
 			enc.Encode(reply{OK: true, Ret: ret, Chk: chk})
+		case "live":
+			if w != nil {
+				w.close()
+				w = nil
+			}
+			evs, nt, err := runLive(rq.Seed, rq.Idx, rq.Opts)
+			if err != nil {
+				enc.Encode(reply{Err: err.Error()})
+				continue
+			}
+			enc.Encode(reply{OK: true, Ret: map[string]any{"events": evs, "nontrivial": nt}})
 		case "close":
 			if w != nil {
 				w.close()
